@@ -7,6 +7,7 @@ import (
 	"fmt"
 	"math/rand"
 	"strings"
+	"time"
 
 	f_log "github.com/transparency-dev/formats/log"
 	"golang.org/x/mod/sumdb/note"
@@ -419,7 +420,14 @@ func (w *world) genRequest(ls *logState) (uint64, []byte, [][]byte, string) {
 		}
 		text := cpText(l.origin, size, cur.root(size), ext...)
 		signers := []note.Signer{l.key.signer}
-		switch rng.Intn(5) {
+		switch rng.Intn(7) {
+		case 5, 6:
+			// lines that impersonate the witness: its name under ANOTHER key hash (so note.Sign does not replace them),
+			// shaped like a cosignature/v1 (8-byte timestamp + 64-byte signature) dated far in the future or at 0,
+			// or like a legacy signature; nothing such a line says may matter to the witness
+			wkx := w.wk[rng.Intn(len(w.wk))]
+			ts := []uint64{1<<63 - 1, uint64(time.Now().Unix()) + 10*365*86400, 0, 1 << 62}[rng.Intn(4)]
+			signers = append(signers, impersonator{name: wkx.signer.Name(), hash: wkx.signer.KeyHash() + 1 + uint32(rng.Intn(3)), ts: ts, legacy: rng.Intn(3) == 0, rng: rng})
 		case 0:
 			signers = append(signers, w.otherKey.signer)
 		case 1:
@@ -489,6 +497,27 @@ func (f forgedSigner) Name() string    { return f.name }
 func (f forgedSigner) KeyHash() uint32 { return f.hash }
 func (f forgedSigner) Sign(msg []byte) ([]byte, error) {
 	return randHash(f.rng, 64), nil
+}
+
+// impersonator signs under somebody else's name with its own key hash: a cosignature/v1-shaped blob (timestamp ts,
+// then 64 bytes) or a bare 64-byte one.
+type impersonator struct {
+	name   string
+	hash   uint32
+	ts     uint64
+	legacy bool
+	rng    *rand.Rand
+}
+
+func (f impersonator) Name() string    { return f.name }
+func (f impersonator) KeyHash() uint32 { return f.hash }
+func (f impersonator) Sign(msg []byte) ([]byte, error) {
+	if f.legacy {
+		return randHash(f.rng, 64), nil
+	}
+	b := make([]byte, 8)
+	binary.BigEndian.PutUint64(b, f.ts)
+	return append(b, randHash(f.rng, 64)...), nil
 }
 
 func junkSigLines(rng *rand.Rand, n int) []byte {
